@@ -269,7 +269,12 @@ def handle (st : State) (cmd : String) (inp obs : List String) : State × String
       let sched := if bits = "-" then [] else parseBits bits
       let r := match simulationStepToActionStep sched step with
         | .ok k => s!"ok {k}" | .error e => errTok e
-      (st, if " ".intercalate obs = r then "ok" else s!"MISMATCH actionstep model={r}")
+      -- C08: the k-th firing step maps to action index k-1 (number of earlier firings), theorem C08_index_bijection
+      let firing := sched[step]? == some true
+      let spec := (sched.take step).filter id |>.length
+      (st, if firing && obs != ["ok", toString spec] then
+             s!"PROPFAIL C08 index_bijection step={step} is firing number {spec + 1}, expected index {spec}, observed {obs}"
+           else if " ".intercalate obs = r then "ok" else s!"MISMATCH actionstep model={r}")
     | none => (st, "BADLINE")
   | "count", [bits] =>
     let sched := if bits = "-" then [] else parseBits bits
